@@ -577,8 +577,13 @@ pub fn faulty_body(rng: &mut Rng) -> String {
         }
         _ => {
             // address of the other family / swapped protocol keyword
-            if e >= 2 && e <= 3 {
+            if e >= 2 && e <= 3 && rng.coin() {
                 f[e] = if v6 { fmt_v4(rand_v4(rng)) } else { fmt_v6(rand_v6(rng), V6Style::Canon, rng) };
+            } else if e >= 2 && e <= 3 {
+                // both addresses of the other family, everything else in order
+                for k in 2..=3 {
+                    f[k] = if v6 { fmt_v4(rand_v4(rng)) } else { fmt_v6(rand_v6(rng), V6Style::Canon, rng) };
+                }
             } else {
                 f[1] = if v6 { "TCP4".into() } else { "TCP6".into() };
             }
@@ -761,7 +766,10 @@ pub const MB_TEMPLATES: [&str; 40] = [
     "PROXY UNKNOWN xxxxxxxxxxxxxxxxxxxxxxxxxxxxxxxxxxxxxxxxxxxxxxxxxxxxxxxxxxxxxxxxxxxxxxxxxxxxxxxxxxxxxxxxxxxxxxxxxxxxxxxxxxx\r\n",
     "PROXY UNKNOWN xxxxxxxxxxxxxxxxxxxxxxxxxxxxxxxxxxxxxxxxxxxxxxxxxxxxxxxxxxxxxxxxxxxxxxxxxxxxxxxxxxxxxxxxxxxxxxxxxxxxxxxx",
 ];
-pub const MB_CHARS: [&str; 5] = ["é", "€", "😀", "\u{80}", "éé"];
+/// multi-byte characters: ordinary ones, and the invisible / white-space ones that `trim`,
+/// `strip_prefix` or a "tolerant" reader might swallow (BOM, NBSP, NEL, LINE SEPARATOR,
+/// IDEOGRAPHIC SPACE, ZERO WIDTH SPACE)
+pub const MB_CHARS: [&str; 11] = ["é", "€", "😀", "\u{80}", "éé", "\u{feff}", "\u{a0}", "\u{85}", "\u{2028}", "\u{3000}", "\u{200b}"];
 pub const MB_MAX_OFF: u64 = 110;
 
 pub fn mbcr_count() -> u64 {
@@ -813,9 +821,24 @@ pub fn mutate(rng: &mut Rng, v: &mut Vec<u8>) {
                 v.truncate(rng.below(n as u64) as usize);
             }
             6 if n > 0 => {
-                // flip one bit
-                let i = rng.below(n as u64) as usize;
-                v[i] ^= 1 << rng.below(8);
+                if rng.coin() {
+                    // flip one bit
+                    let i = rng.below(n as u64) as usize;
+                    v[i] ^= 1 << rng.below(8);
+                } else {
+                    // exchange two separators of different kinds (a dot and a space, a colon and
+                    // a space, ...): the multiset of characters stays the same
+                    let seps: Vec<usize> = (0..n).filter(|&i| matches!(v[i], b' ' | b'.' | b':')).collect();
+                    if seps.len() >= 2 {
+                        let a = *rng.pick(&seps[..]);
+                        let others: Vec<usize> = seps.iter().copied().filter(|&j| v[j] != v[a]).collect();
+                        if !others.is_empty() {
+                            // prefer a neighbour: the nearest separator of another kind
+                            let b = if rng.coin() { *others.iter().min_by_key(|&&j| (j as i64 - a as i64).abs()).unwrap() } else { *rng.pick(&others[..]) };
+                            v.swap(a, b);
+                        }
+                    }
+                }
             }
             _ => {}
         }
